@@ -8,5 +8,7 @@ CONSTANTS
   ServeFails = TRUE
   DeferUnreport = TRUE
   LockedAdd = TRUE
+  Counting = TRUE
+  TrackKey = "pair"
 INVARIANTS OutcomeOK CountersNonNeg CountersBalanced
 CHECK_DEADLOCK FALSE
